@@ -60,6 +60,9 @@ pub struct Case {
     /// L2: the sample list is passed through a samples file (-S) instead of -s
     #[serde(default)]
     pub samples_file: bool,
+    /// L2: the input arrives on stdin in read chunks of (first, rest) bytes instead of by path
+    #[serde(default)]
+    pub stdin_chunks: Option<(usize, usize)>,
 }
 
 pub struct C10;
@@ -198,6 +201,11 @@ impl Prop for C10 {
             p.max_recs = 12;
         }
         let (mut callset, mut cfg) = gen::gen_callset(&mut rng, &p);
+        // L2, now and then: an input of more than 160 KB, delivered through a pipe-like stdin
+        let big_l2 = l2 && idx % 96 == 23;
+        if big_l2 {
+            gen::pad_callset(&mut callset, 160_000);
+        }
         if callset.recs.is_empty() {
             let s = callset.samples.clone();
             callset.recs.push(gen::gen_rec(&mut rng, 0, &s, &cfg, 0, 7));
@@ -224,7 +232,13 @@ impl Prop for C10 {
             Fault::UnknownSample,
             Fault::BadProjection,
         ];
-        let fault = if l2 { *rng.pick(&l2_faults) } else { *rng.pick(&l1_faults) };
+        let fault = if big_l2 {
+            *rng.pick(&[Fault::None, Fault::None, Fault::StrictViolation, Fault::PloidySelected])
+        } else if l2 {
+            *rng.pick(&l2_faults)
+        } else {
+            *rng.pick(&l1_faults)
+        };
         if fault == Fault::StrictViolation || (fault == Fault::None && rng.chance(1, 2)) {
             // strict mode conflicts with projection on the command line
             cfg.project = None;
@@ -237,7 +251,9 @@ impl Prop for C10 {
             _ => *rng.pick(&Container::ALL),
         };
         let n = callset.recs.len();
-        let positions = if n <= 40 {
+        let positions = if big_l2 {
+            Positions::List((0..3).map(|_| rng.range(0, n - 1)).collect())
+        } else if n <= 40 {
             Positions::All
         } else {
             Positions::List((0..24).map(|_| rng.range(0, n - 1)).collect())
@@ -257,6 +273,14 @@ impl Prop for C10 {
             container,
             verbosity: if l2 { *rng.pick(&[0u8, 0, 1, 2, 3, 4]) } else { *rng.pick(&[0u8, 0, 1, 2]) },
             samples_file: l2 && rng.chance(1, 3),
+            stdin_chunks: if big_l2 || (l2 && rng.chance(1, 4)) {
+                Some((
+                    *rng.pick(&[1usize, 2, 3, 100, 192, 1000, 1024, 4096, 5000, 65535, 65537]),
+                    *rng.pick(&[7usize, 100, 1000, 1024, 4096, 8192, 65536]),
+                ))
+            } else {
+                None
+            },
         }
     }
 
@@ -328,6 +352,9 @@ impl Prop for C10 {
         if case.verbosity != 0 {
             v.push(Case { verbosity: 0, ..case.clone() });
         }
+        if case.stdin_chunks.is_some() {
+            v.push(Case { stdin_chunks: None, ..case.clone() });
+        }
         if case.samples_file {
             v.push(Case { samples_file: false, ..case.clone() });
         }
@@ -348,7 +375,7 @@ impl Prop for C10 {
             "records": case.callset.recs.len(), "samples": case.callset.samples.len(),
             "config": case.cfg, "fault": format!("{:?}", case.fault), "second_fault": format!("{:?}", case.second),
             "fault_positions": match &case.positions { Positions::All => "every record index".to_string(), Positions::List(l) => format!("{l:?}") },
-            "container": case.container.name(), "verbosity_flags": case.verbosity, "samples_via_file": case.samples_file,
+            "container": case.container.name(), "verbosity_flags": case.verbosity, "samples_via_file": case.samples_file, "stdin_chunks": case.stdin_chunks,
             "first_record": case.callset.recs.first().map(|r| case.callset.rec_text(r)),
         })
     }
@@ -456,9 +483,12 @@ fn run_l1_at(case: &Case, i: usize, out: &mut Outcome) {
                 // a ploidy error must name its site (for a source I/O error only failing is demanded)
                 let first_is_ploidy = (h == i && case.fault == Fault::PloidySelected)
                     || (Some(h) == second_at && h != i && case.second == Some(Fault::PloidySelected));
-                if first_is_ploidy && !msg.contains(&site_name(cs, h)) {
-                    // strict mode may legitimately stop earlier, at the first site the non-strict
-                    // run would skip: taken from a non-strict run over the records before the fault
+                // strict mode stops earlier, at the first site the non-strict run would skip (taken
+                // from a non-strict run over the records before the fault): "fails at the first record
+                // in input order that would be skipped". A ploidy error is found when its record is
+                // processed, i.e. after that site, so it cannot legitimately win; for a source I/O
+                // error nothing is demanded here (an implementation may read ahead).
+                if first_is_ploidy && (cfg.strict || !msg.contains(&site_name(cs, h))) {
                     let (sel, _) = selected(cs, &cfg);
                     let cut = items
                         .iter()
@@ -475,7 +505,11 @@ fn run_l1_at(case: &Case, i: usize, out: &mut Outcome) {
                     } else {
                         None
                     };
-                    if !earlier.map(|s| msg.contains(&s)).unwrap_or(false) {
+                    let named = match &earlier {
+                        Some(s) => msg.contains(s.as_str()),
+                        None => msg.contains(&site_name(cs, h)),
+                    };
+                    if !named {
                         out.violate(
                             "failure_not_first_or_unnamed",
                             format!("C10 L1 {:?}: error does not name the first failing site", case.fault),
@@ -694,9 +728,11 @@ fn parse_skipped(stderr: &str) -> (Option<(usize, usize)>, Vec<String>) {
     l1::parse_skip_text(stderr.lines())
 }
 
-fn l2_create(ctx: &mut Ctx, cfg: &Config, bytes: &[u8], plan: Option<Plan>, verbose: u8, samples_file: bool) -> ChildResult {
+fn l2_create(ctx: &mut Ctx, cfg: &Config, bytes: &[u8], plan: Option<Plan>, verbose: u8, samples_file: bool, stdin_chunks: Option<(usize, usize)>) -> ChildResult {
     let mut args = vec!["create".to_string()];
-    let mut files = vec![("in.dat".to_string(), gen::hex(bytes))];
+    // chunked stdin only where no other plan governs the input file
+    let via_stdin = stdin_chunks.filter(|_| plan.is_none());
+    let mut files = if via_stdin.is_some() { vec![] } else { vec![("in.dat".to_string(), gen::hex(bytes))] };
     if samples_file {
         let (a, content) = cfg.cli_args_with_samples_file("@DIR@/samples.txt");
         args.extend(a);
@@ -719,11 +755,25 @@ fn l2_create(ctx: &mut Ctx, cfg: &Config, bytes: &[u8], plan: Option<Plan>, verb
             args.push("-v".into());
         }
     }
-    args.push("@DIR@/in.dat".into());
+    let (stdin, plan) = match via_stdin {
+        Some((first, rest)) => (
+            Stdin::File(gen::hex(bytes)),
+            Some(Plan {
+                input: Some(Target::Stdin),
+                rd_chunks: vec![first.max(1)],
+                rd_rest: rest.max(1),
+                ..Default::default()
+            }),
+        ),
+        None => {
+            args.push("@DIR@/in.dat".into());
+            (Stdin::Null, plan)
+        }
+    };
     let child = Child {
         args,
         env: vec![],
-        stdin: Stdin::Null,
+        stdin,
         plan,
         files,
     };
@@ -764,7 +814,7 @@ fn run_l2_at(case: &Case, i: usize, ctx: &mut Ctx, out: &mut Outcome) {
         }
         _ => {}
     }
-    let r = l2_create(ctx, &cfg, &bytes, plan, case.verbosity, case.samples_file);
+    let r = l2_create(ctx, &cfg, &bytes, plan, case.verbosity, case.samples_file, case.stdin_chunks);
     out.evals += 1;
     out.count("l2.runs", 1);
     out.steps += r.events.len() as u64 + cs.recs.len() as u64;
@@ -840,7 +890,7 @@ fn run_l2_at(case: &Case, i: usize, ctx: &mut Ctx, out: &mut Outcome) {
                 let earlier = if cfg.strict {
                     let mut c2 = cfg.clone();
                     c2.strict = false;
-                    let relaxed = l2_create(ctx, &c2, &bytes, None, 0, case.samples_file);
+                    let relaxed = l2_create(ctx, &c2, &bytes, None, 0, case.samples_file, case.stdin_chunks);
                     out.evals += 1;
                     parse_skipped(&relaxed.stderr_text()).1.first().cloned()
                 } else {
@@ -873,7 +923,7 @@ fn run_l2_at(case: &Case, i: usize, ctx: &mut Ctx, out: &mut Outcome) {
             if cfg.strict {
                 let mut c2 = cfg.clone();
                 c2.strict = false;
-                let relaxed = l2_create(ctx, &c2, &bytes, None, case.verbosity, case.samples_file);
+                let relaxed = l2_create(ctx, &c2, &bytes, None, case.verbosity, case.samples_file, case.stdin_chunks);
                 out.evals += 1;
                 out.count("l2.runs", 1);
                 let (_, rsk) = parse_skipped(&relaxed.stderr_text());
